@@ -15,7 +15,7 @@ from symx.scalar import SymComplex, SymReal
 from .common import EPS, facts, far, far_c, model_angle, re_im, tensor_of, term_of
 
 PID = "C12"
-LEVEL = "other"
+LEVEL = "model_checking"
 CLAIM = (
     "Bounded symbolic verification: for every Euler angle (symbolic reals), small-d matrices for 2j<=8 are orthogonal, "
     "equal 1 at beta=0, satisfy the generator equation d'=-iJ_y d and the index symmetries; D*=e^{i m a} d e^{i m' g} and "
